@@ -294,7 +294,14 @@ def _run_histories(max_len=2, limit=None):
                         cats[0].build_trees([0.1, 0.9, 1.0], closed="left", force=True)
                         cats[2].build_trees([0.1, 0.9, 1.0], closed="left", force=True)
                     elif op == "reopen":
-                        cats = [yaw.Catalog(c.cache_directory) for c in cats]
+                        again = [yaw.Catalog(c.cache_directory) for c in cats]
+                        for a, b in zip(cats, again):
+                            # what decides which patch pairs are linked (centres, radii) and the normalisation (sums of weights) must
+                            # come back bit for bit
+                            if not (np.array_equal(a.get_centers().data, b.get_centers().data) and np.array_equal(a.get_radii().data, b.get_radii().data)
+                                    and np.array_equal(a.get_sum_weights(), b.get_sum_weights())):
+                                raise AssertionError("a reopened catalog reports other patch centres / radii / sums of weights than the catalog that wrote them")
+                        cats = again
                     elif op == "same_count_measurement":
                         other = yaw.Configuration.create(rmin=200, rmax=5000, edges=[0.1, 0.25, 0.55, 1.0], closed="right")
                         measure(cats, other)
@@ -344,3 +351,13 @@ def replay_witness(unit_name, case, ob):
     viol, evals = _run_histories(2)
     return {"reproduced": bool(viol), "violations": viol[:4], "histories_tried": evals,
             "note": "real measurements after real histories of cache operations vs fresh caches"}
+
+
+# "reopening the catalog": a reopened catalog sees exactly the patch centres and radii of the catalog that wrote them (they decide
+# which patch pairs are linked) - the C11 unit on the metadata dictionary, run here as well
+def _register_shared_round10():
+    from . import C11 as _C11
+    unit(P, "Metadata.dict", fuc=["yaw.catalog.patch:Metadata.to_dict", "yaw.catalog.patch:Metadata.from_dict"])(_C11.u_meta_dict)
+
+
+# _register_shared_round10() is called by the driver after this module is fully imported (no import cycles)
